@@ -35,6 +35,15 @@ FULL = CORE + EXTRA
 # 64 lexemes, enumerated at depth 4 in the thorough tier
 MID = CORE + ["*", "}", "''", "== ", "<b x='1'>", "[http://a.b t]", "\ud800", "\uebae", ".", "\"", "\r", "__END_", "-->", "<!--",
               "-QINU\x7f", "\x7fUNIQ-", "@", "&#", "`"]
+# 14 lexemes that drive the scanner STATE (tablemode, rowchar, section line, last_ebad, text merging, rewinds),
+# enumerated deeper: depth <=5 (quick) / <=6 (thorough)
+STATE = ["a", " ", "\t", "\n", "=", "{|", "|}", "|", "!", "-", "+", ":", "'", EBAD]
+# contexts in which every boundary character of every character class of the rules is tried (prefix + c + suffix)
+PREFIXES = ["", "\n", "a", "[", "news:", "news:a", "ftp://", "ftp://a", "irc://", "irc://a", "mailto:", "mailto:a", "mailto:a@", "mailto:a@b",
+            "http://", "https://a", "[//", "//a", "&", "&a", "&#", "&#1", "&#x", "&#xa", "<", "</", "<a", "<a ", "<a/", "<!--", "<!--a-",
+            "\x7fUNIQ-", "\x7fUNIQ-a", "\x7fUNIQ-a-", "\x7fUNIQ-a-1", "\x7fUNIQ-a-1-", "\x7fUNIQ-a-1-f", "\x7fUNIQ-a-1-f-QINU",
+            "__TOC_", "_", "=", "= ", "''", "\n ", "\n\t", "\n:", "\n|", "\n---", "{|\n", "{|\n!", "{|\n|", "|"]
+SUFFIXES = ["", "a", ";", "@b", ">", "-->", "-1-f-QINU\x7f", "\n", "|", "\0"]
 HOT = list(" \t\n\n\n=|!-+:;#*[]'<>/&_{}\"@.?%~^`aZz09xX\\\x7f\r\x0b\x1f") + [EBAD, EBAD, "\U0001F600", "é", "\ud800", "\uffff", "\0"]
 
 
@@ -67,8 +76,10 @@ def random_texts(rng, n):
 def plan(tier):
     """[(alphabet name, alphabet, depth)] - every listed depth is enumerated exhaustively"""
     if tier == "quick":
-        return [("core", CORE, d) for d in range(0, 4)] + [("full", FULL, d) for d in range(1, 4)]
-    return ([("core", CORE, d) for d in range(0, 5)] + [("full", FULL, d) for d in range(1, 4)] + [("mid", MID, 4)])
+        return ([("core", CORE, d) for d in range(0, 4)] + [("full", FULL, d) for d in range(1, 4)]
+                + [("state", STATE, d) for d in (4, 5)])
+    return ([("core", CORE, d) for d in range(0, 5)] + [("full", FULL, d) for d in range(1, 4)] + [("mid", MID, 4)]
+            + [("state", STATE, d) for d in (5, 6)])
 
 
 def build():
@@ -137,7 +148,9 @@ def check(run):
     run.rule = ("texts = all sequences of <=3 (quick) / <=4 (thorough) lexemes over a 45-lexeme alphabet (words, blanks, newline, "
                 "table markup, '=' , list/rule markers, brackets, quotes, tags, comment, entities, 6 URL schemes, magic word, uniq "
                 "marker, U+EBAD, NUL, non-BMP), all sequences of <=3 over an 88-lexeme extension (incl. a lone surrogate, "
-                "U+10FFFF, partial markers), in the thorough tier all sequences of 4 over a 64-lexeme alphabet, plus seeded random long texts (lexeme soup, hot characters, table-like documents, "
+                "U+10FFFF, partial markers), in the thorough tier all sequences of 4 over a 64-lexeme alphabet, all sequences of <=5 / <=6 "
+                "over 14 state-driving lexemes, every boundary code point (lo-1, lo, hi, hi+1) of every character class of the generated "
+                "rules between 52 prefixes and 10 suffixes, plus seeded random long texts (lexeme soup, hot characters, table-like documents, "
                 "arbitrary code points). distinct = distinct text; non-trivial = real output has >=2 tokens or the text contains "
                 "U+EBAD or NUL")
     run.trusted = [
@@ -182,8 +195,14 @@ def check(run):
         for fn in sorted(os.listdir(cdir)):
             corpus.append("".join(chr(c) for c in json.load(open(os.path.join(cdir, fn)))["text"]))
     nrand = 20000 if run.tier == "quick" else 400000
-    rtexts = corpus + random_texts(run.rng, nrand)
-    per = 2000 if run.tier == "quick" else 15000
+    # every boundary character of every class / literal of the generated rules, in every context
+    btexts = []
+    for b in (info.get("class_bounds") or []):
+        for pre in PREFIXES:
+            for suf in SUFFIXES:
+                btexts.append(pre + chr(b) + suf)
+    rtexts = corpus + btexts + random_texts(run.rng, nrand)
+    per = 20000 if run.tier == "quick" else 60000
     for k in range(0, len(rtexts), per):
         sp = add_spec("rand%03d" % (k // per), mode="file")
         with open(sp["inp"], "w") as f:
@@ -201,7 +220,7 @@ def check(run):
     dis = []
     ncases = 0
     nviol = 0
-    dist = {"exhaustive_texts": total_enum, "random_texts": len(rtexts) - len(corpus), "corpus": len(corpus),
+    dist = {"exhaustive_texts": total_enum, "random_texts": nrand, "class_boundary_texts": len(btexts), "corpus": len(corpus),
             "text_length_max": 0, "token_count_hist": {}}
     hist = {}
     reported = 0
